@@ -71,6 +71,8 @@ MEMBERS = {
     "mangle": "    __priv = 7\n    def getpriv(self):\n        return self.__priv\n",
     "memberdefault": "    LIMIT = 3\n    def md(self, a=LIMIT, *, size=LIMIT + 1):\n        return a, size\n    LIMIT = 9\n",
     "decohook": "    def traced(fn):\n        def w(*a, **k):\n            return fn(*a, **k)\n        return w\n    @traced\n    def __init_subclass__(cls, **kw):\n        super().__init_subclass__(**kw)\n        cls.traced_seen = True\n    @staticmethod\n    def __new__(cls, *a):\n        return object.__new__(cls)\n    del_me = traced\n",
+    "mangle_under": "    class _In:\n        __v = 3\n        def __h(self):\n            return self.__v\n        def g(self):\n            return self.__h(), sorted(k for k in vars(type(self)) if 'In' in k)\n    inres = _In().g()\n",
+    "enclparamonly": "    cap2 = PARAM\n    cap3 = (PARAM, ENCL)\n",
     "closure": "    def cl(self):\n        return ENCL\n",
     "enclparam": "    cap = PARAM\n    def cl2(self):\n        return PARAM, self.cap\n",
 }
@@ -130,7 +132,7 @@ def progs(maxkinds):
                 continue
             body = "".join(MEMBERS[x] for x in ms)
             for place in ("module", "function", "class", "function-local", "class-local"):
-                if ("closure" in ms or "enclparam" in ms) and not place.startswith("function"):
+                if ("closure" in ms or "enclparam" in ms or "enclparamonly" in ms) and not place.startswith("function"):
                     continue
                 if "super2" in ms and place.startswith("class"):
                     continue
@@ -158,7 +160,7 @@ def run_shard(shard):
         if idx % k != r:
             continue
         res.c["programs_generated"] += 1
-        n = progcheck.check_program(res, key, src, cfgs, env=env)
+        n = progcheck.check_program(res, key, src, cfgs, env=env, envname="c12")
         if n == 0 and idx % 211 == 0:
             res.sample({"key": key, "source": src[len(PRE):]})
     return res
@@ -201,7 +203,7 @@ def replay(payload):
                 src = s
                 break
     res = core.ShardResult()
-    progcheck.check_program(res, payload["key"], src, [payload["cfg"]] if payload.get("cfg") is not None else None, env=env)
+    progcheck.check_program(res, payload["key"], src, [payload["cfg"]] if payload.get("cfg") is not None else None, env=env, envname="c12")
     for f in res.fails:
         print("still failing:", f[0], core.cfg_name(f[1]), f[3], f[4])
     return 1 if res.fails else 0
